@@ -32,6 +32,10 @@ CHECKS = {
         text='MSD, distance from the start and tracer diffusivity are TLA+ operators over the integer unwrapped walk and the integer metric tensor; TLC checks lemmas on the model and, as an oracle, prints the exact numerators for harness-generated walks that cross faces many times in 6 cell families x 3 orientations; the floats of the real code must equal these rationals.',
         note='Trusted: TLC integer arithmetic; exact-lattice abstraction (/16 grid, |step| < half cell); FFT round-off bounds the comparison at relative 1e-8; scipy constants.',
         ref='DESIGN.md 8/C06', technique='TLA+ spec Metrics.tla; TLC model checking (MC_Metrics) + TLC as exact oracle on recorded inputs (TraceMetrics.tla)'),
+    'C07': dict(
+        text='Every spec operator is a function of the integer metric tensor, fractional differences and index sets only (rotation invariance by construction; translation lemma model-checked). Each system is run through the real code in 5 representations (reference, rotated lattice, generic real translation through the faces, permuted atoms and sites, all together); all outputs are mapped back with the logged relabelling and judged by the same trace specs against the same integer inputs; volumes under whole-voxel shifts and path costs on rolled grids likewise.',
+        note='Trusted: TLC; the trace specs of C02/C03/C04/C05/C08/C10/C11/C12; margins that make discrete answers stable under float perturbation.',
+        ref='DESIGN.md 8/C07', technique='TLA+ specs Sites/Lattice/Rdf/Grid reused; TLC model checking of the translation lemma + trace validation of 5 representations per system against one spec expectation'),
     'C08': dict(
         text='Voxel binning is specified in integers (n = L div res, Bin(k,n,N) = floor(k n / N), Density as a set of (voxel,count)); TLC evaluates the round-trip and resolution-band lemmas over their whole small domains and judges recorded trajectory_to_volume results (6 cell families x 3 orientations, unequal axes, samples on and off voxel edges) voxel by voxel.',
         note='Trusted: TLC; integer cell lengths; L/res kept 0.02 from integers; on-edge samples only for power-of-two voxel counts.',
